@@ -28,7 +28,7 @@ import PV.C01.LemmasL2Shift
 import PV.C01.LemmasDec
 import PV.C01.LemmasFlip
 import PV.C01.LemmasNary
-import PV.C01.LemmasWordsZip
+import PV.C01.LemmasWords4
 namespace PV.C01
 open Spec
 
@@ -382,15 +382,83 @@ theorem C01_kernel_bitmap_bitmap_words {a b : List Nat} (ha : WordsWF a) (hb : W
     (WordsWF (wXorN a b).2 ∧ absW (wXorN a b).2 = Spec.xor (absW a) (absW b) ∧ (wXorN a b).1 = (absW (wXorN a b).2).length) :=
   ⟨wAndN_refines ha hb, wOrN_refines ha hb, wAndNotN_refines ha hb, wXorN_refines ha hb⟩
 
+/-- WORD level of the single-bit operations (`wBitUpdate_refines`): `bitmapContains`
+(`bitmap[v/64] & (1 << v%64) != 0`), `bitmapAdd` (`|= 1 << v%64`, `n+1` when new), `bitmapRemove`
+(`&^=`, `n-1` when present) — the operations behind every Add / Remove on a bitmap container. -/
+theorem C01_kernel_bitmap_bit_updates {ws : List Nat} {n : Nat} (h : WordsWF ws) (hn : n = (absW ws).length)
+    (v : Nat) (hv : v < 65536) :
+    wContains ws v = decide (v ∈ absW ws) ∧
+    (WordsWF (wBitmapAdd n ws v).2.1 ∧ (∀ p, p ∈ absW (wBitmapAdd n ws v).2.1 ↔ (p ∈ absW ws ∨ p = v)) ∧
+      (wBitmapAdd n ws v).1 = (absW (wBitmapAdd n ws v).2.1).length ∧ (wBitmapAdd n ws v).2.2 = !decide (v ∈ absW ws)) ∧
+    (WordsWF (wBitmapRemove n ws v).2.1 ∧ (∀ p, p ∈ absW (wBitmapRemove n ws v).2.1 ↔ (p ∈ absW ws ∧ p ≠ v)) ∧
+      (wBitmapRemove n ws v).1 = (absW (wBitmapRemove n ws v).2.1).length ∧
+      (wBitmapRemove n ws v).2.2 = decide (v ∈ absW ws)) := by
+  have A := wBitmapAdd_refines h hn v hv
+  have R := wBitmapRemove_refines h hn v hv
+  refine ⟨?_, ⟨A.1, fun p => ?_, A.2.2.1, A.2.2.2⟩, ⟨R.1, fun p => ?_, R.2.2.1, R.2.2.2⟩⟩
+  · rw [wContains_eq, Bool.eq_iff_iff, decide_eq_true_eq]; exact bitp_iff_absW h v hv
+  · by_cases hp : p < 65536
+    · rw [← bitp_iff_absW A.1 p hp, A.2.1 p hp, Bool.or_eq_true, bitp_iff_absW h p hp, decide_eq_true_eq]
+    · constructor
+      · intro hm; exact absurd (absW_lt A.1 p hm) hp
+      · rintro (hm | rfl)
+        · exact absurd (absW_lt h p hm) hp
+        · exact absurd hv hp
+  · by_cases hp : p < 65536
+    · rw [← bitp_iff_absW R.1 p hp, R.2.1 p hp, Bool.and_eq_true, bitp_iff_absW h p hp]
+      simp
+    · constructor
+      · intro hm; exact absurd (absW_lt R.1 p hm) hp
+      · rintro ⟨hm, _⟩; exact absurd (absW_lt h p hm) hp
+
+/-- WORD level of the array × bitmap kernels: `unionArrayBitmap`, `differenceBitmapArray` (bit by
+bit with `n++` / `n--`), `intersectArrayBitmap`, `differenceArrayBitmap` (mask tests) and
+`intersectionCountArrayBitmap` (`(bitmap[i] >> off) & 1`). -/
+theorem C01_kernel_array_bitmap_words {ws xs : List Nat} {n : Nat} (h : WordsWF ws) (hn : n = (absW ws).length)
+    (hxs : (Container.array xs).WF) :
+    (WordsWF (wUnionArray n ws xs).2 ∧ absW (wUnionArray n ws xs).2 = Spec.union xs (absW ws) ∧
+      (wUnionArray n ws xs).1 = (absW (wUnionArray n ws xs).2).length) ∧
+    (WordsWF (wDiffArray n ws xs).2 ∧ absW (wDiffArray n ws xs).2 = Spec.diff (absW ws) xs ∧
+      (wDiffArray n ws xs).1 = (absW (wDiffArray n ws xs).2).length) ∧
+    wIntersectArray ws xs = Spec.inter xs (absW ws) ∧
+    wDifferenceArray ws xs = Spec.diff xs (absW ws) ∧
+    wIntersectionCountArray ws xs = (xs.filter (fun v => decide (v ∈ absW ws))).length :=
+  ⟨wUnionArray_refines h hn hxs.1 hxs.2, wDiffArray_refines h hn hxs.1 hxs.2,
+   wIntersectArray_refines h hxs.1 hxs.2, wDifferenceArray_refines h hxs.1 hxs.2,
+   wIntersectionCountArray_refines h xs hxs.2⟩
+
+/-- WORD level of the bitmap branch of `intersectBitmapRun` (`wIntersectBitmapRun_refines`): for
+every run, every word it touches, the four cases (word inside the run: `bitmap[i] = aBitmap[i]`;
+run inside the word: mask `((1 << len) - 1) << (start - vastart)`; run starts / ends inside the
+word: `(a >> off) << off`, `(a << off) >> off`, all with `bitmap[i] |= bits`) and
+`n += popcount(bits)`: the result is the intersection with the right cardinality. In particular a
+second run starting inside a word that already holds bits must OR into it. -/
+theorem C01_kernel_intersect_bitmap_run_words {aws : List Nat} {rb : List Iv} (ha : WordsWF aws) (hr : RunsWF rb) :
+    WordsWF (wIntersectRuns aws rb).2 ∧
+    absW (wIntersectRuns aws rb).2 = Spec.inter (absW aws) (runValues rb) ∧
+    (wIntersectRuns aws rb).1 = (absW (wIntersectRuns aws rb).2).length ∧
+    ∀ v, v ∈ absW (wIntersectRuns aws rb).2 ↔ (v ∈ absW aws ∧ v ∈ runValues rb) := by
+  have R := wIntersectRuns_refines ha hr
+  refine ⟨R.1, R.2.1, R.2.2, fun v => ?_⟩
+  rw [R.2.1]; exact mem_inter (sorted_absW aws) (runValues_sorted hr) v
+
+example : RunsWF [⟨10, 20⟩, ⟨30, 100⟩, ⟨128, 65535⟩] := by decide
+
+/-- WORD level of `shiftBitmap` (`wShift_refines`): `carry = v >> 63; v = v<<1 | lastCarry` over the
+1024 words, `n - carry`: every position moves up by one, position 65535 leaves as the carry. -/
+theorem C01_kernel_shift_bitmap_words {ws : List Nat} {n : Nat} (h : WordsWF ws) (hn : n = (absW ws).length) :
+    WordsWF (wShift n ws).2.1 ∧ absW (wShift n ws).2.1 = Spec.shift 65536 (absW ws) ∧
+    (wShift n ws).2.2 = decide (65535 ∈ absW ws) ∧ (wShift n ws).1 = (absW (wShift n ws).2.1).length :=
+  wShift_refines h hn
+
 /-- What is still modelled at set level only (tied to the code by correspondence + spec oracle):
-the single-bit
-updates of `intersectArrayBitmap` / `unionArrayBitmap` / `differenceBitmapArray` / `xorArrayBitmap`,
-the lowest-set-bit extraction loop of `bitmapToArray`, `bitmapCountRuns` / `bitmapToRun`, the
-bitmap branch of `intersectBitmapRun`, `shiftBitmap`, `bitmapMax`.  Missing lemmas, by name:
-`wBitUpdate_refines` (`bitmap[v/64] |= 1 << (v%64)` and `&^=` commute with `absW`), `wBitmapToArray_refines` (`t = w & -w`, `popcount(t-1)` is the index of the lowest
-set bit), `wCountRuns_refines` (`popcount((v << 1) &^ v) + ((v >> 63) &^ v1)` counts run starts),
-`wBitmapToRun_refines`, `wIntersectBitmapRun_refines`, `wShift_refines`.  The statement proved here is
-the set-level one for the conversions. -/
+the lowest-set-bit extraction loop of `bitmapToArray`, `bitmapCountRuns` / `bitmapToRun`,
+`bitmapMax`, and the add/remove sequencing with its conversions inside
+`xorArrayBitmap` (its single steps are `C01_kernel_bitmap_bit_updates`).  Missing lemmas, by name:
+`wBitmapToArray_refines` (`t = w & -w`, `popcount(t-1)` is the index of the lowest set bit),
+`wCountRuns_refines` (`popcount((v << 1) &^ v) + ((v >> 63) &^ v1)` counts run ends),
+`wBitmapToRun_refines`, `wMax_refines`.
+The statement proved here is the set-level one for the conversions. -/
 theorem C01_kernel_bitmap_rest_partial {n : Nat} {bits : List Nat} (h : (Container.bitmap n bits).WF) :
     ((bitmapToArray n bits).WF ∧ (bitmapToArray n bits).values = bits) ∧
     ((bitmapToRun n bits).WF ∧ ∀ v, v ∈ (bitmapToRun n bits).values ↔ v ∈ bits) ∧
